@@ -487,6 +487,9 @@ def make_queries(ctx, progs, modes, harness_fn, known_keys=(), timeout=120, jobs
             return ('error', prog, mode, str(ex))
         if tr is None:
             return ('rejected', prog, mode, info)
+        for fn in (info.get('functions') or []):
+            ctx.functions.add('%s (emitted for %s by occa translate)' % (fn if len(fn) < 40 else fn[:40], mode))
+        ctx.units.add('bin/occa translate -m %s (built from %s on this run)' % (mode, C.REPO))
         res = []
         variants = [((), 'pass')]
         act = [k for k in known_keys if k in prog.excl or k in prog.excl_post]
